@@ -10,13 +10,13 @@ import concurrent.futures as cf, json, os, time
 from . import common as c
 
 TIERS = {
-    "quick": {"groups": [["leaf", "un", "bin", "unbin"], ["left"], ["right"]], "trace_events": 600, "shards": 2},
-    "thorough": {"groups": [["leaf", "un", "bin", "unbin"], ["left"], ["right"], ["three"]], "trace_events": 24000, "shards": 12},
+    "quick": {"groups": [["leaf", "un", "bin", "unbin"], ["left"], ["right"], ["spec"]], "trace_events": 600, "shards": 2},
+    "thorough": {"groups": [["leaf", "un", "bin", "unbin"], ["left"], ["right"], ["spec"], ["three"]], "trace_events": 24000, "shards": 12},
 }
 
 ASSUMPTIONS = [
-    "values are compared inside the model's exact dyadic number domain; for expressions whose value leaves it "
-    "(1/3, large powers) only the oracle-free half is checked: both renderings print the same text",
+    "values are compared inside the model's exact number domain (small dyadics, -0, NaN, +-inf with their IEEE / C99 rules); for "
+    "expressions whose value leaves it (1/3, large finite powers) only the oracle-free half is checked: both renderings print the same text",
     "f64::powf with an integer exponent returns the exact result when it is representable",
     "operator semantics on exact values (Arith/Compare/Logic in Abasic.tla) are shared by Fold and the token evaluator; "
     "what is independent is the parsing: Fold has no parser at all",
@@ -41,7 +41,7 @@ def run(pid, tier, seed):
         os.remove(out)
         return st, json.load(open(rp))
 
-    with cf.ThreadPoolExecutor(max_workers=4) as ex:
+    with cf.ThreadPoolExecutor(max_workers=5) as ex:
         results = list(ex.map(group, range(len(cfg["groups"]))))
     states = sum(st["distinct"] for st, _ in results)
     violations, counters, samples = [], {}, []
